@@ -999,20 +999,34 @@ def ob_search(W, lo, hi, prior=False):
 
     def sched_other(**kw):
         return {"nf": other[int(kw["Jdes"])]}
+
+    def sched_by_args(**kw):
+        # ONE scheduler whose bin count depends on its clamp arguments too (bmin=1: nf_J, any other bmin: other_nf_J)
+        J = int(kw["Jdes"])
+        if kw.get("bmin", 1.0) == 1.0 and kw.get("Lmin", 1) == 1:
+            calls.append(J)
+            return {"nf": nfs[J]}
+        return {"nf": other[J]}
+    if prior == "other-args":
+        first = lambda f: f(sched_by_args, target, N=16, fs=1.0, olap=0.5, Kdes=4, bmin=2.0, Lmin=3)
+        second = lambda f: f(sched_by_args, target, N=16, fs=1.0, olap=0.5, Kdes=4, bmin=1.0, Lmin=1)
+    else:
+        first = lambda f: f(sched_other, target, N=16)
+        second = lambda f: f(sched, target, N=16)
     if W.sym:
         from symx.shim import clone_module
         G = clone_module(U, dict(MIN_JDES=lo, MAX_JDES=hi))
         f = G["find_Jdes_binary_search"]
         if prior:
-            f(sched_other, target, N=16)
-        ret = f(sched, target, N=16)
+            first(f)
+        ret = second(f)
     else:
         old = (U.MIN_JDES, U.MAX_JDES)
         U.MIN_JDES, U.MAX_JDES = lo, hi
         try:
             if prior:
-                U.find_Jdes_binary_search(sched_other, target, N=16)
-            ret = U.find_Jdes_binary_search(sched, target, N=16)
+                first(U.find_Jdes_binary_search)
+            ret = second(U.find_Jdes_binary_search)
         finally:
             U.MIN_JDES, U.MAX_JDES = old
     W.goal("C04/search-returns-exact-or-None", True if ret is None else W.eq(nfs[int(ret)], target))
